@@ -29,17 +29,27 @@ TRUSTED_BASE = [
 ]
 ASSUMPTIONS = [
     "group-by values are None, int, str or a list of floats (no NaN/inf, no nested lists, no bare floats)",
-    "orientation differences are not within 1e-9 of the tolerance (5e-5 + 1e-5*|b|), so float64 and exact arithmetic agree",
+    "orientation differences are not within 1e-7 of the tolerance (5e-5 + 1e-5*|b|), so float64 and exact arithmetic agree",
     "sorted(): when two full keys are incomparable (None against a value at the first differing position) the model raises "
-    "TypeError; CPython does so only if its sort compares that pair - generators produce such keys only with <= 2 groups",
+    "TypeError; CPython does so only if its sort compares that pair - generators produce such keys only with <= 2 groups; such "
+    "lists (missing attributes) and orientations of different lengths are outside the property and only judged when a result is returned",
     "C18_classes / C18_permutation: closeness restricted to the values present is an equivalence (reflexive, symmetric, "
     "transitive), i.e. orientation clusters are separated by more than the tolerance; file payloads are pairwise distinct",
-    "warnings are counted only when issued from dcmstack.py",
+    "what is compared with the implementation: raised vs not raised (no exception class), member sets, every key entry against the "
+    "members' own values (== for some member in the model check, every member in the oracle), number of warnings of the call (any "
+    "origin, minus those pydicom/the extractor issue for the same files alone) >= the number of skipped/refused files; the order of "
+    "the returned dict is not compared",
+    "C18_parse_and_stack_isolation: a group may lose all its files (it is then absent from the result, fix F27); a group that keeps a "
+    "file must keep its first file (otherwise the key's representative of a tolerance-compared value changes); the conclusion is an "
+    "equality of (key, stack) sets, not of dict order",
 ]
 RULE = ("file pools of 2-14 files: 1-4 series x 1-4 images (stack kind: slices x time points) differing in UID / number / protocol / "
         "orientation (other plane, or a zero component shifted by 2e-4..1e-3 = beyond tolerance; jitter <= 3e-5 inside a series), plus "
         "1-3 faulty files; per pool 4-9 path lists: two shuffles without faults, each fault at first / last / random positions in warn "
-        "mode, one strict list. Extra kinds: closeness chains a~b~c with a!~c, asymmetric pairs (|b| large), missing attributes "
+        "mode, strict lists with the fault in the middle and as the FIRST path. Tolerance kind: orientation values 3e-5..2e-4 apart "
+        "(4.9e-5 / 5.2e-5 next to the documented tolerance), truth from the documented rule. Stack refusals: other Rows/Columns, PixelSpacing "
+        "or orientation (group_by without the orientation) not close to the reference, ordinate outside abs_ordering (get_ordinate raises), "
+        "repeated (time, position); 15% of the pools with force=True. Extra kinds: closeness chains a~b~c with a!~c, asymmetric pairs (|b| large), missing attributes "
         "(None keys), orientation of other lengths (broadcast), custom group_by = any ordering of any non-empty subset of the default keys "
         "(half of them with the tolerance-compared key first) and custom close_tests; the order of the returned groups is observed. Non-trivial = at least two groups or "
         "at least one fault / refusal in some list")
@@ -75,7 +85,7 @@ def _mk_ds(sp):
         ds.ProtocolName = sp['prot']
     rows, cols = sp.get('rows', 2), sp.get('cols', 2)
     ds.Rows, ds.Columns = rows, cols
-    ds.PixelSpacing = [1.0, 1.0]
+    ds.PixelSpacing = [str(x) for x in sp.get('ps', ('1.0', '1.0'))]
     if sp.get('iop') is not None:
         ds.ImageOrientationPatient = [str(x) for x in sp['iop']]
     ds.ImagePositionPatient = [float(x) for x in sp.get('ipp', (0, 0, 0))]
@@ -173,25 +183,30 @@ def _enc_val(v):
     raise TypeError('group value of type %s outside the model domain' % type(v).__name__)
 
 
-def _read_one(path, keys):
-    """The read result of one path, obtained with the calls parse_and_group makes (model input)."""
+def _read_one(path, keys, force):
+    """The read result of one path, obtained with the calls parse_and_group makes (model input).  'fw' = number of
+    warnings pydicom / the extractor issue on their own for this file (subtracted from the warnings of a call)."""
     import pydicom
     from dcmstack.extract import default_extractor
-    try:
-        ds = pydicom.dcmread(path, force=False)
-    except Exception as e:
-        return {'fault': _errclass(e), 'exc': type(e).__name__}
-    attrs = [a for a in CAND_ATTRS if hasattr(ds, a)]
-    meta = {}
-    if any(a in PIX for a in attrs):
-        m = default_extractor(ds)
-        for k in keys:
-            meta[k] = _enc_val(m.get(k))
-    return {'attrs': attrs, 'meta': meta}
+    with warnings.catch_warnings(record=True) as ws:
+        warnings.simplefilter('always')
+        try:
+            ds = pydicom.dcmread(path, force=force)
+        except Exception as e:
+            return {'fault': _errclass(e), 'exc': type(e).__name__, 'fw': len(ws)}
+        attrs = [a for a in CAND_ATTRS if hasattr(ds, a)]
+        meta = {}
+        if any(a in PIX for a in attrs):
+            m = default_extractor(ds)
+            for k in keys:
+                meta[k] = _enc_val(m.get(k))
+    return {'attrs': attrs, 'meta': meta, 'fw': len(ws)}
 
 
-def _nwarn(ws):
-    return len([w for w in ws if os.path.basename(w.filename) == 'dcmstack.py'])
+def _adj_warn(ws, reads, order):
+    """warnings of one call, whoever's frame they are attributed to, minus the ones reading the same files produces
+    without dcmstack (never by message text, never by file name of the emitting frame)"""
+    return max(0, len(ws) - sum(reads[i].get('fw', 0) for i in order))
 
 
 def _kw(case):
@@ -203,42 +218,73 @@ def _kw(case):
     return kw
 
 
-def _observe_group(case, paths, L):
+def _observe_group(case, paths, L, reads):
     import dcmstack
+    kw = _kw(case)
+    if case.get('force'):
+        kw['force'] = True
     with warnings.catch_warnings(record=True) as ws:
         warnings.simplefilter('always')
         try:
-            res = dcmstack.parse_and_group([paths[i] for i in L['order']], warn_on_except=L['warn'], **_kw(case))
+            res = dcmstack.parse_and_group([paths[i] for i in L['order']], warn_on_except=L['warn'], **kw)
         except Exception as e:
             return {'err': _errclass(e), 'exc': type(e).__name__}
     groups = []
     for k, g in res.items():
         groups.append({'key': [_enc_val(x) for x in k], 'ids': sorted(_id_of(fn) for _, _, fn in g)})
-    order = [min(g['ids']) if g['ids'] else -1 for g in groups]        # the OrderedDict's own order
     groups.sort(key=lambda g: g['ids'])
-    return {'groups': groups, 'w': _nwarn(ws), 'order': order}
+    return {'groups': groups, 'w': _adj_warn(ws, reads, L['order'])}
+
+
+def _stack_file_ids(s, nii):
+    """ids of the files a DicomStack holds.  The class has no public accessor: the ONE place that reads its state;
+    falls back to the public result (InstanceNumber values embedded by to_nifti); None = cannot tell (harness)."""
+    try:
+        return sorted(int(w.get_meta('InstanceNumber')) - 1 for w, _ in s._files_info)
+    except Exception:
+        pass
+    try:
+        from dcmstack.dcmmeta import NiftiWrapper
+        ext = NiftiWrapper(nii).meta_ext
+        vals, _cls = ext.get_values_and_class('InstanceNumber')
+        vals = vals if isinstance(vals, (list, tuple)) else [vals]
+        return sorted(set(int(v) - 1 for v in vals))
+    except Exception:
+        return None
 
 
 def _stack_summary(st):
     out = []
     for key, s in st.items():
-        ids = sorted(int(w.get_meta('InstanceNumber')) - 1 for w, _ in s._files_info)
+        nii = None
         try:
             nii = s.to_nifti(embed_meta=True)
             h = hashlib.sha1(nii.to_bytes()).hexdigest()
         except Exception as e:
             h = 'err:' + type(e).__name__
-        out.append({'ids': ids, 'hash': h})
-    out.sort(key=lambda x: x['ids'])
+        out.append({'ids': _stack_file_ids(s, nii), 'hash': h})
+    out.sort(key=lambda x: x['ids'] if x['ids'] is not None else [-1])
     return out
 
 
-def _observe_stack(case, paths, S):
+def _stack_args(S):
+    """JSON description -> DicomStack keyword arguments ('abs': abs_ordering of the time DicomOrdering)"""
+    import dcmstack
+    a = dict(S.get('args') or {})
+    out = {}
+    if a.get('time_order'):
+        out['time_order'] = dcmstack.DicomOrdering(a['time_order'], abs_ordering=a['abs']) if a.get('abs') else a['time_order']
+    return out
+
+
+def _observe_stack(case, paths, S, reads):
     import dcmstack
     kw = {}
     if case.get('group_by') is not None:
         kw['group_by'] = tuple(case['group_by'])
-    args = dict(S.get('args') or {})
+    if case.get('force'):
+        kw['force'] = True
+    args = _stack_args(S)
     plist = [paths[i] for i in S['order']]
     obs = {}
     # behaviour of add_dcm at the points the run visits (the model's Section variable, sampled)
@@ -269,11 +315,14 @@ def _observe_stack(case, paths, S):
         except Exception as e:
             obs.update({'err': _errclass(e), 'exc': type(e).__name__})
             return obs
-    obs['w'] = _nwarn(ws)
+    obs['w'] = _adj_warn(ws, reads, S['order'])
     with warnings.catch_warnings():
         warnings.simplefilter('ignore')
         obs['stacks'] = _stack_summary(st)
         # the same input without every file that did not end up in a stack
+        if any(s['ids'] is None for s in obs['stacks']):
+            obs['harness'] = 'cannot tell which files a DicomStack holds'
+            return obs
         kept = set(i for s in obs['stacks'] for i in s['ids'])
         try:
             st2 = dcmstack.parse_and_stack([paths[i] for i in S['order'] if i in kept], warn_on_except=False, **dict(kw, **args))
@@ -285,7 +334,7 @@ def _observe_stack(case, paths, S):
 
 def run_impl(case):
     import dcmstack  # noqa: F401  (from $DCMSTACK_REPO/src)
-    base = os.environ.get('VERIF_WORK') or os.path.join(os.path.dirname(os.path.dirname(os.path.abspath(__file__))), 'work', 'C18')
+    base = os.environ.get('VERIF_WORK') or os.path.join(os.path.dirname(os.path.dirname(os.path.abspath(__file__))), 'work', 'c18_manual')
     wd = os.path.join(base, 'files_%d_%s' % (os.getpid(), hashlib.sha1(json.dumps(case, sort_keys=True).encode()).hexdigest()[:12]))
     shutil.rmtree(wd, ignore_errors=True)
     os.makedirs(wd)
@@ -295,10 +344,10 @@ def run_impl(case):
         keys = list(case.get('group_by') or _impl.default_group_keys)
         with warnings.catch_warnings():
             warnings.simplefilter('ignore')
-            reads = [_read_one(p, keys) for p in paths]
+            reads = [_read_one(p, keys, bool(case.get('force'))) for p in paths]
         return {'reads': reads,
-                'lists': [_observe_group(case, paths, L) for L in case['lists']],
-                'stacks': [_observe_stack(case, paths, S) for S in case.get('stacks', [])]}
+                'lists': [_observe_group(case, paths, L, reads) for L in case['lists']],
+                'stacks': [_observe_stack(case, paths, S, reads) for S in case.get('stacks', [])]}
     finally:
         shutil.rmtree(wd, ignore_errors=True)
 
@@ -312,7 +361,7 @@ def _cgval(v):
         return '(GInt %s)' % cz(v['i'])
     if 's' in v:
         return '(GStr %s)' % cstr(v['s'])
-    return '(GTup %s)' % clist('(%s # %s)%%Q' % (n, d) for n, d in v['t'])
+    return '(GTup %s)' % clist('(Qcanon.Q2Qc (%s # %s)%%Q)' % (n, d) for n, d in v['t'])
 
 
 def _cerr(e):
@@ -331,7 +380,7 @@ def _cnats(l):
 
 
 BAD_CASE = ('{| c_group_by := []; c_close := []; c_files := []; c_lists := [{| p_order := []; p_warn := true; '
-            'p_obs := GOk [] 77%nat [] |}]; c_stacks := [] |}')
+            'p_obs := GErr ECrash |}]; c_stacks := [] |}')
 
 
 def coq_case(case, obs):
@@ -344,11 +393,12 @@ def coq_case(case, obs):
         if 'err' in o:
             ob = '(GErr %s)' % _cerr(o['err'])
         else:
-            ob = '(GOk %s %s %s)' % (clist(cpair(clist(_cgval(x) for x in g['key']), _cnats(g['ids'])) for g in o['groups']), cnat(o['w']),
-                                     _cnats([x if x >= 0 else 99999 for x in o['order']]))
+            ob = '(GOk %s %s)' % (clist(cpair(clist(_cgval(x) for x in g['key']), _cnats(g['ids'])) for g in o['groups']), cnat(o['w']))
         lists.append('{| p_order := %s; p_warn := %s; p_obs := %s |}' % (_cnats(L['order']), cbool(L['warn']), ob))
     stacks = []
     for S, o in zip(case.get('stacks', []), obs['stacks']):
+        if 'harness' in o:
+            continue             # reported by the oracle as a harness diagnostic
         if 'err' in o:
             ob = '(SErr %s)' % _cerr(o['err'])
         else:
@@ -362,19 +412,42 @@ def coq_case(case, obs):
 
 # ------------------------------------------------------------------------------------------------ oracle
 
+DOC_ATOL = Fraction(5, 100000)      # the tolerance the code documents for orientation / spacing (np.allclose atol)
+DOC_RTOL = Fraction(1, 100000)      # numpy's default rtol
+FLD = {'SeriesInstanceUID': 'uid', 'SeriesNumber': 'num', 'ProtocolName': 'prot'}
+
+
+def _fr(x):
+    return Fraction(str(x))
+
+
+def _doc_close(a, b):
+    """the documented closeness of a new value a to a reference b, on decimal strings / numbers (generator truth)"""
+    return abs(_fr(a) - _fr(b)) <= DOC_ATOL + DOC_RTOL * abs(_fr(b))
+
+
+def _gb(case):
+    return list(case.get('group_by') or DEFAULT_GROUP)
+
+
+def _ct(case):
+    return list(case['close']) if case.get('close') is not None else list(DEFAULT_CLOSE)
+
+
 def _label(case, sp):
     """ground-truth class of an image file under the case's group_by / close_tests (None: not asserted)"""
     if sp.get('cluster') is None:
         return None
-    gb = case.get('group_by') or DEFAULT_GROUP
-    ct = case.get('close') if case.get('close') is not None else DEFAULT_CLOSE
-    fld = {'SeriesInstanceUID': 'uid', 'SeriesNumber': 'num', 'ProtocolName': 'prot'}
+    ct = _ct(case)
     lab = []
-    for k in gb:
+    for k in _gb(case):
         if k == 'ImageOrientationPatient':
-            lab.append(('c', sp['cluster']) if k in ct else ('x', tuple(float(x) for x in sp['iop'])))
+            if k in ct:
+                lab.append(('c', sp['cluster']))
+            else:
+                lab.append(('x', None if sp.get('iop') is None else tuple(float(x) for x in sp['iop'])))
         else:
-            lab.append(sp.get(fld[k]))
+            lab.append(sp.get(FLD[k]))      # numbers compared with the tolerance differ by >= 1: the same as exact
     return tuple(lab)
 
 
@@ -394,12 +467,11 @@ def _dec_val(v):
     return ('?', repr(v))
 
 
-def _key_mismatch(case, key, sp):
-    """None when entry i of the group key is the member file's own value of group_by[i] for every i (orientation
-    within 1e-4 when compared with tolerance, exactly otherwise); else a description of the first mismatch"""
-    gb = case.get('group_by') or DEFAULT_GROUP
-    ct = case.get('close') if case.get('close') is not None else DEFAULT_CLOSE
-    fld = {'SeriesInstanceUID': 'uid', 'SeriesNumber': 'num', 'ProtocolName': 'prot'}
+def _key_mismatch(case, key, sp, exact=False):
+    """None when entry i of the key is the file's own value of group_by[i] for every i: equal for the exactly compared
+    keys; for a tolerance-compared orientation within twice the documented tolerance (the key may be the value of
+    another member, every member is within the tolerance of it); `exact`: orientation equal as floats."""
+    gb, ct = _gb(case), _ct(case)
     if not isinstance(key, (list, tuple)) or len(key) != len(gb):
         return 'the key has %s entries for %d group_by keys' % (len(key) if isinstance(key, (list, tuple)) else '?', len(gb))
     for i, (k, v) in enumerate(zip(gb, key)):
@@ -410,52 +482,104 @@ def _key_mismatch(case, key, sp):
                 ok = want is None and got is None
             elif not isinstance(got, tuple) or len(got) != len(want) or (got and got[0] == '?'):
                 ok = False
-            elif k in ct:
-                ok = all(abs(g - w) <= Fraction(1, 10000) for g, w in zip(got, want))
+            elif k in ct and not exact:
+                ok = all(abs(g - w) <= 2 * (DOC_ATOL + DOC_RTOL * max(abs(g), abs(w))) for g, w in zip(got, want))
             else:
                 ok = got == want
         else:
-            want = sp.get(fld[k])
+            want = sp.get(FLD[k])
             ok = (type(got) is type(want)) and got == want
         if not ok:
-            return 'entry %d (%s) is %r, the file has %r' % (i, k, v, sp.get('iop') if k == 'ImageOrientationPatient' else sp.get(fld.get(k)))
+            return 'entry %d (%s) is %r, the file has %r' % (i, k, v, sp.get('iop') if k == 'ImageOrientationPatient' else sp.get(FLD.get(k)))
     return None
 
 
-def _order_problem(o):
-    """the groups must come in the sorted order of their keys (sorted(full_results.items()))"""
-    by_min = {min(g['ids']): tuple(_dec_val(x) for x in g['key']) for g in o['groups'] if g['ids']}
-    try:
-        keys = [by_min[m] for m in o.get('order', [])]
-    except KeyError:
-        return 'the order of the result does not name its groups: %s' % (o.get('order'),)
-    if len(keys) != len(o['groups']):
-        return 'the order of the result lists %d of %d groups' % (len(keys), len(o['groups']))
-    for a, b in zip(keys, keys[1:]):
-        try:
-            if not a < b:
-                return 'the groups are not in the sorted order of their keys: %r comes before %r' % (a, b)
-        except TypeError:
-            return None       # incomparable keys: outside what is judged
+def _read_mismatch(case, sp, r):
+    """abstraction == generator truth: what the plugin read (the model's input) is what the generator wrote"""
+    k = sp['kind']
+    force = bool(case.get('force'))
+    is_fault = 'fault' in r
+    has_pix = (not is_fault) and any(a in PIX for a in r.get('attrs', []))
+    if k == 'img':
+        if is_fault or not has_pix:
+            return 'an image file was not read as an image'
+        return _key_mismatch(case, [r['meta'].get(g) for g in _gb(case)], sp, exact=True)
+    if k == 'missing':
+        return None if is_fault else 'a missing path was read'
+    if k == 'nopix':
+        return None if (not is_fault and not has_pix) else 'a pixel-less data set was not read as one'
+    if k in ('garbage', 'text', 'empty') and not force:
+        return None if is_fault else 'a non-DICOM file was read without force'
+    return 'an unreadable / truncated file was read as an image' if has_pix else None
+
+
+def _same_values(case, a, b):
+    """identical on every group-by value (as written by the generator)"""
+    for k in _gb(case):
+        if k == 'ImageOrientationPatient':
+            x, y = a.get('iop'), b.get('iop')
+            if (x is None) != (y is None) or (x is not None and [float(v) for v in x] != [float(v) for v in y]):
+                return False
+        elif a.get(FLD[k]) != b.get(FLD[k]):
+            return False
+    return True
+
+
+def _pair_problem(case, a, b):
+    """a necessary condition for two files of one group: equal on the exactly compared keys, orientation within twice
+    the documented tolerance (both are within the tolerance of the representative)"""
+    ct = _ct(case)
+    for k in _gb(case):
+        if k == 'ImageOrientationPatient':
+            x, y = a.get('iop'), b.get('iop')
+            if x is None or y is None:
+                if (x is None) != (y is None):
+                    return 'one has no orientation'
+                continue
+            if len(x) != len(y):
+                continue
+            if k in ct:
+                if any(abs(_fr(p) - _fr(q)) > 2 * (DOC_ATOL + DOC_RTOL * max(abs(_fr(p)), abs(_fr(q)))) for p, q in zip(x, y)):
+                    return 'orientations %s / %s differ by more than twice the tolerance' % (x, y)
+            elif [float(v) for v in x] != [float(v) for v in y]:
+                return 'orientations differ'
+        elif a.get(FLD[k]) != b.get(FLD[k]):
+            return '%s differs (%r / %r)' % (k, a.get(FLD[k]), b.get(FLD[k]))
     return None
+
+
+def _certainly_unreadable(case, kind):
+    return kind == 'missing' or (kind in MUST_RAISE and not case.get('force'))
+
+
+def _maybe_unreadable(case, kind):
+    return kind == 'trunc' or (kind in MUST_RAISE and bool(case.get('force')))
 
 
 def _expected_rejects(case, S):
-    """independent acceptance rule of a stack: first image of a class is the reference; another Rows/Columns is refused;
-    with an explicit time order a repeated (time, position) is refused"""
+    """independent acceptance rule of a stack (add_dcm as documented), per class in path order: the first accepted image
+    is the reference; PixelSpacing / orientation not close to the reference's, or other Rows/Columns -> refused; an
+    ordinate outside abs_ordering -> refused; with an explicit time order a repeated (time, position) -> refused"""
     files = case['files']
-    timed = bool((S.get('args') or {}).get('time_order'))
+    a = S.get('args') or {}
+    timed = bool(a.get('time_order'))
+    absl = a.get('abs')
     ref, seen, rej = {}, {}, []
     for i in S['order']:
         sp = files[i]
         if sp['kind'] != 'img':
             continue
         lab = _label(case, sp)
-        shape = (sp.get('rows', 2), sp.get('cols', 2))
-        if lab not in ref:
-            ref[lab] = shape
-            seen[lab] = set()
-        if shape != ref[lab]:
+        seen.setdefault(lab, set())
+        r = ref.get(lab)
+        if r is not None:
+            ps, rps = sp.get('ps', ('1.0', '1.0')), r.get('ps', ('1.0', '1.0'))
+            ok = all(_doc_close(x, y) for x, y in zip(ps, rps)) and all(_doc_close(x, y) for x, y in zip(sp['iop'], r['iop']))
+            ok = ok and (sp.get('rows', 2), sp.get('cols', 2)) == (r.get('rows', 2), r.get('cols', 2))
+            if not ok:
+                rej.append(i)
+                continue
+        if timed and absl and sp.get('acq') not in absl:
             rej.append(i)
             continue
         tup = (sp.get('acq'), tuple(sp.get('ipp', (0, 0, 0))))
@@ -463,6 +587,8 @@ def _expected_rejects(case, S):
             rej.append(i)
             continue
         seen[lab].add(tup)
+        if r is None:
+            ref[lab] = sp
     return rej
 
 
@@ -474,25 +600,27 @@ def oracle(case, obs):
 
 
 def _oracle(case, obs):
-    if not isinstance(obs, dict) or 'crash' in obs:
-        return None if not isinstance(obs, dict) else 'the runner crashed: %s %s' % (obs.get('crash'), str(obs.get('msg'))[:200])
+    if not isinstance(obs, dict):
+        return 'harness: no observation'
+    if 'crash' in obs:
+        return 'the runner crashed: %s %s' % (obs.get('crash'), str(obs.get('msg'))[:200])
     files = case['files']
-    judged = case.get('judge', True)
+    for sp, r in zip(files, obs['reads']):
+        mm = _read_mismatch(case, sp, r)
+        if mm:
+            return 'harness: file %d (%s): %s' % (sp['id'], sp['kind'], mm)
     by_imgset = {}
     for n, (L, o) in enumerate(zip(case['lists'], obs['lists'])):
         kinds = [files[i]['kind'] for i in L['order']]
         img_ids = sorted(i for i in L['order'] if files[i]['kind'] == 'img')
         skipped = [i for i in L['order'] if files[i]['kind'] != 'img']
-        must_raise = (not L['warn']) and any(k in MUST_RAISE for k in kinds)
-        may_raise = (not L['warn']) and any(k == 'trunc' for k in kinds)
-        if not judged:
-            # kinds outside the conditions of the property (missing attributes, non-equivalence): only the partition is
-            # asserted, and only when a result was returned
-            if 'err' in o:
-                continue
+        must_raise = (not L['warn']) and any(_certainly_unreadable(case, k) for k in kinds)
+        may_raise = (not L['warn']) and any(_maybe_unreadable(case, k) for k in kinds)
         if 'err' in o:
             if must_raise or may_raise:
                 continue
+            if case.get('may_err') and o.get('err') in case['may_err'] and len(img_ids) >= 2:
+                continue       # None against a value / orientations of different lengths: outside the property's conditions
             return 'list %d (%s, warn=%s): parse_and_group raised %s although %s' % (
                 n, L['order'], L['warn'], o.get('exc'), 'warn_on_except is set' if L['warn'] else 'every file is readable or a non-image data set')
         if must_raise:
@@ -503,10 +631,24 @@ def _oracle(case, obs):
             return 'list %d (%s): not a partition of the readable image files: groups %s, images %s' % (n, L['order'], sets, img_ids)
         if any(not s for s in sets):
             return 'list %d: an empty group' % n
-        if o['w'] != len(skipped):
+        if o['w'] < len(skipped):
             return 'list %d (%s): %d warnings for %d skipped files' % (n, L['order'], o['w'], len(skipped))
-        if not judged:
-            continue
+        # every entry of every key against every member's own value
+        for g in o['groups']:
+            for i in g['ids']:
+                mm = _key_mismatch(case, g['key'], files[i])
+                if mm:
+                    return 'list %d (%s): group key %s is not the tuple of group-by values of its member %d: %s' % (n, L['order'], g['key'], i, mm)
+        grp_of = {i: gi for gi, g in enumerate(o['groups']) for i in g['ids']}
+        for x in img_ids:
+            for y in img_ids:
+                if x < y:
+                    if grp_of[x] == grp_of[y]:
+                        pp = _pair_problem(case, files[x], files[y])
+                        if pp:
+                            return 'list %d (%s): files %d and %d are in one group but %s' % (n, L['order'], x, y, pp)
+                    elif _same_values(case, files[x], files[y]):
+                        return 'list %d (%s): files %d and %d have identical group-by values but are in different groups' % (n, L['order'], x, y)
         labs = {i: _label(case, files[i]) for i in img_ids}
         if all(l is not None for l in labs.values()):
             want = {}
@@ -515,25 +657,19 @@ def _oracle(case, obs):
             want = sorted(sorted(v) for v in want.values())
             if sorted(sets) != want:
                 return 'list %d (%s): groups %s, but the files equal on every key (orientation within tolerance) are %s' % (n, L['order'], sorted(sets), want)
-            for g in o['groups']:
-                for i in g['ids']:
-                    mm = _key_mismatch(case, g['key'], files[i])
-                    if mm:
-                        return 'list %d (%s): group key %s is not the tuple of group-by values of its member %d: %s' % (n, L['order'], g['key'], i, mm)
-            op = _order_problem(o)
-            if op:
-                return 'list %d (%s): %s' % (n, L['order'], op)
-        k = tuple(img_ids)
-        if k in by_imgset and by_imgset[k][1] != sorted(sets):
-            return 'lists %d and %d contain the same readable image files but are grouped differently: %s vs %s (orders %s / %s)' % (
-                by_imgset[k][0], n, by_imgset[k][1], sorted(sets), case['lists'][by_imgset[k][0]]['order'], L['order'])
-        by_imgset.setdefault(k, (n, sorted(sets)))
+            k = tuple(img_ids)
+            if k in by_imgset and by_imgset[k][1] != sorted(sets):
+                return 'lists %d and %d contain the same readable image files but are grouped differently: %s vs %s (orders %s / %s)' % (
+                    by_imgset[k][0], n, by_imgset[k][1], sorted(sets), case['lists'][by_imgset[k][0]]['order'], L['order'])
+            by_imgset.setdefault(k, (n, sorted(sets)))
     for n, (S, o) in enumerate(zip(case.get('stacks', []), obs['stacks'])):
+        if 'harness' in o:
+            return 'harness: stack list %d: %s' % (n, o['harness'])
         kinds = [files[i]['kind'] for i in S['order']]
         rej = _expected_rejects(case, S)
         skipped = [i for i in S['order'] if files[i]['kind'] != 'img']
-        must_raise = (not S['warn']) and (any(k in MUST_RAISE for k in kinds) or bool(rej))
-        may_raise = (not S['warn']) and any(k == 'trunc' for k in kinds)
+        must_raise = (not S['warn']) and (any(_certainly_unreadable(case, k) for k in kinds) or bool(rej))
+        may_raise = (not S['warn']) and any(_maybe_unreadable(case, k) for k in kinds)
         if 'err' in o:
             if must_raise or may_raise:
                 continue
@@ -544,8 +680,13 @@ def _oracle(case, obs):
         want_in = sorted(i for i in S['order'] if files[i]['kind'] == 'img' and i not in rej)
         if in_stacks != want_in:
             return 'stack list %d (%s): files in the stacks %s, expected %s (refused: %s)' % (n, S['order'], in_stacks, want_in, rej)
-        if o['w'] != len(skipped) + len(rej):
+        if o['w'] < len(skipped) + len(rej):
             return 'stack list %d (%s): %d warnings for %d skipped + %d refused files' % (n, S['order'], o['w'], len(skipped), len(rej))
+        if any(not x['ids'] for x in o['stacks']):
+            return 'stack list %d (%s): the result holds a stack without any file (every file of that group was refused)' % (n, S['order'])
+        n_classes = len(set(_label(case, files[i]) for i in want_in))
+        if len(o['stacks']) != n_classes:
+            return 'stack list %d (%s): %d stacks for %d groups with an accepted file' % (n, S['order'], len(o['stacks']), n_classes)
         if o['without'] != o['stacks']:
             return ('stack list %d (%s): the result differs from the result of the same list without the skipped / refused files %s: %s vs %s'
                     % (n, S['order'], sorted(set(S['order']) - set(in_stacks)), o['stacks'], o['without']))
@@ -553,15 +694,24 @@ def _oracle(case, obs):
 
 
 def signature(case, obs, msg):
+    if msg.startswith('harness'):
+        return 'harness/' + ('stack-files' if 'stack list' in msg else 'read')
+    if msg.startswith('the runner crashed'):
+        return 'crash/grouping/' + str((obs or {}).get('crash'))
     return case.get('kind', '?') + '/' + ('stack' if msg.startswith('stack') else 'group')
 
 
 def nontrivial(case, obs):
+    """some list returned at least two groups, or returned a result although a file had to be skipped / refused"""
     if not isinstance(obs, dict) or 'lists' not in obs:
         return False
-    if any(f['kind'] != 'img' for f in case['files']):
-        return True
-    return any(len(o.get('groups', [])) >= 2 or 'err' in o for o in obs['lists'])
+    for o in obs['lists']:
+        if len(o.get('groups', [])) >= 2 or ('groups' in o and o.get('w', 0) > 0):
+            return True
+    for o in obs.get('stacks', []):
+        if 'stacks' in o and (o.get('w', 0) > 0 or len(o['stacks']) >= 2):
+            return True
+    return False
 
 
 def shrink(case):
@@ -667,6 +817,7 @@ def _lists_with_faults(rng, imgs, faults, n_extra):
         o2 = list(a)
         o2.insert(rng.randrange(len(o2) + 1), rng.choice(faults))
         lists.append({'order': o2, 'warn': False})
+        lists.append({'order': [rng.choice(faults)] + list(b), 'warn': False})      # strict mode, the fault comes first
     return lists
 
 
@@ -703,8 +854,8 @@ def _gen_mix(rng, custom=False):
         case['group_by'] = gb
         if ct is not None:
             case['close'] = ct
-            if 'SeriesNumber' in ct:
-                case['judge'] = False     # numbers compared with a tolerance: classes not asserted
+    if rng.random() < 0.15:
+        case['force'] = True              # parse_and_group(force=True): non-DICOM files become pixel-less data sets
     return case
 
 
@@ -733,7 +884,57 @@ def _gen_chain(rng):
         o = list(imgs)
         rng.shuffle(o)
         lists.append({'order': o, 'warn': False})
-    return {'kind': kind, 'judge': False, 'files': files, 'lists': lists, 'stacks': []}
+    return {'kind': kind, 'files': files, 'lists': lists, 'stacks': []}
+
+
+WITHIN = ['0.00003', '0.00004', '0.000045', '0.000049']
+BEYOND = ['0.000052', '0.00006', '0.00007', '0.0001', '0.00015', '0.0002']
+
+
+def _gen_tol(rng):
+    """judged cases on both sides of the documented tolerance: orientation values that differ in one component by
+    3e-5 .. 2e-4; the truth (which files belong together) is computed here from the documented rule
+    |a - b| <= 5e-5 + 1e-5*|b|, required to be an equivalence with a margin of 1e-7 in both directions"""
+    s = _series(rng, 1)[0]
+    plane = PLANES[s['plane']]
+    while True:
+        comp = rng.randrange(6)
+        base = str(plane[comp])
+        sign = rng.choice(['', '-'])
+        pat = rng.random()
+        if pat < 0.6:
+            offs = ['0', sign + rng.choice(WITHIN + BEYOND)]
+        elif pat < 0.8:
+            offs = ['0', sign + rng.choice(WITHIN), sign + rng.choice(['0.0002', '0.0003'])]
+        else:
+            offs = ['0', sign + rng.choice(BEYOND), sign + rng.choice(['0.0004', '0.0005'])]
+        vals = [_dec_add(base, o) for o in offs]
+        ok = True
+        close = {}
+        for i, a in enumerate(vals):
+            for j, b in enumerate(vals):
+                d = abs(_fr(a) - _fr(b))
+                t = DOC_ATOL + DOC_RTOL * abs(_fr(b))
+                if abs(d - t) < Fraction(1, 10**7):
+                    ok = False
+                close[(i, j)] = d <= t
+        n = len(vals)
+        ok = ok and all(close[(i, j)] == close[(j, i)] for i in range(n) for j in range(n))
+        ok = ok and all((not (close[(i, j)] and close[(j, k)])) or close[(i, k)] for i in range(n) for j in range(n) for k in range(n))
+        if ok:
+            break
+    cl = [min(j for j in range(n) if close[(i, j)]) for i in range(n)]
+    files = []
+    for i, v in enumerate(vals):
+        for _ in range(rng.choice([1, 1, 2])):
+            iop = [str(x) for x in plane]
+            iop[comp] = v
+            files.append({'id': len(files), 'kind': 'img', 'uid': s['uid'], 'num': s['num'], 'prot': s['prot'], 'iop': iop,
+                          'cluster': 'tol%d' % cl[i], 'ipp': [0, 0, len(files)]})
+    imgs = [f['id'] for f in files]
+    faults = _fault_files(rng, len(files), rng.choice([0, 0, 1]), files[0])
+    files += faults
+    return {'kind': 'tolerance', 'files': files, 'lists': _lists_with_faults(rng, imgs, [f['id'] for f in faults], 0), 'stacks': []}
 
 
 def _gen_none(rng):
@@ -746,6 +947,8 @@ def _gen_none(rng):
         sp = {'id': len(files), 'kind': 'img', 'uid': sd['uid'], 'num': sd['num'], 'prot': sd['prot'],
               'iop': _iop(rng, PLANES[sd['plane']], sd['shift'], True), 'ipp': [0, 0, len(files)]}
         sp.update(over)
+        if pat != 'short-iop':
+            sp['cluster'] = _cluster_id(sd) if sp['iop'] is not None else 'none'
         files.append(sp)
     n = rng.choice([2, 3])
     if pat == 'all-noprot':
@@ -759,7 +962,7 @@ def _gen_none(rng):
             add(s[0], num=None if j % 2 else s[0]['num'])
     elif pat == 'mixed-iop':
         for j in range(n):
-            add(s[0], iop=None if j % 2 else files[0]['iop'] if files else _iop(rng, PLANES[0], '0', True))
+            add(s[0], iop=None if j % 2 else (files[0]['iop'] if files else _iop(rng, PLANES[s[0]['plane']], s[0]['shift'], True)))
     elif pat == 'all-noiop':
         for _ in range(n):
             add(s[0], iop=None)
@@ -780,17 +983,32 @@ def _gen_none(rng):
         rng.shuffle(o)
         lists.append({'order': o, 'warn': rng.random() < 0.5})
     lists.append({'order': imgs[:1], 'warn': False})
-    return {'kind': 'none-' + pat, 'judge': False, 'files': files, 'lists': lists, 'stacks': []}
+    case = {'kind': 'none-' + pat, 'files': files, 'lists': lists, 'stacks': []}
+    if pat.startswith('mixed'):
+        case['may_err'] = ['EType']       # None against a value: TypeError from np.allclose / sorted (outside the property)
+    elif pat == 'short-iop':
+        case['may_err'] = ['EValue']      # orientations of different lengths do not broadcast
+    return case
+
+
+NOIOP_GROUP = ['SeriesInstanceUID', 'SeriesNumber', 'ProtocolName']
 
 
 def _gen_stack(rng):
+    """parse_and_stack: grids of slices x time points plus files that add_dcm refuses (other Rows/Columns, PixelSpacing or
+    orientation not close to the reference's, an ordinate outside abs_ordering, a repeated (time, position)) and unreadable ones"""
+    noiop = rng.random() < 0.25          # group without the orientation: files of another orientation reach add_dcm
     ser = _series(rng, rng.choice([1, 1, 2]))
-    # series of one stack kind must differ in an exactly compared key or the plane (keeps orientations orthonormal)
-    ser = [s for j, s in enumerate(ser) if all((s['uid'], s['num'], s['prot'], s['plane']) != (t['uid'], t['num'], t['prot'], t['plane']) for t in ser[:j])]
+    if noiop:
+        ser = [s for j, s in enumerate(ser) if all((s['uid'], s['num'], s['prot']) != (t['uid'], t['num'], t['prot']) for t in ser[:j])]
+    else:
+        # series must differ in an exactly compared key or the plane (keeps orientations orthonormal)
+        ser = [s for j, s in enumerate(ser) if all((s['uid'], s['num'], s['prot'], s['plane']) != (t['uid'], t['num'], t['prot'], t['plane']) for t in ser[:j])]
     for s in ser:
         s['shift'] = '0'
     files = []
     timed = rng.random() < 0.8
+    use_abs = timed and rng.random() < 0.4
     for s in ser:
         nz, nt = rng.choice([1, 2, 2, 3]), rng.choice([1, 2, 2])
         tr, ped = rng.choice([2000, 3000]), rng.choice(['ROW', 'COL'])
@@ -799,28 +1017,56 @@ def _gen_stack(rng):
             for z in range(nz):
                 ipp = [0, 0, 0]
                 ipp[normal_axis] = z
-                files.append({'id': len(files), 'kind': 'img', 'uid': s['uid'], 'num': s['num'], 'prot': s['prot'],
-                              'iop': _iop(rng, PLANES[s['plane']], '0', False), 'cluster': _cluster_id(s), 'ipp': ipp,
-                              'acq': t + 1, 'tr': tr, 'ped': ped})
+                sp = {'id': len(files), 'kind': 'img', 'uid': s['uid'], 'num': s['num'], 'prot': s['prot'],
+                      'iop': _iop(rng, PLANES[s['plane']], '0', False), 'cluster': _cluster_id(s), 'ipp': ipp,
+                      'acq': t + 1, 'tr': tr, 'ped': ped}
+                if rng.random() < 0.15:
+                    sp['ps'] = ['1.0', rng.choice(['1.00002', '1.00003', '0.99997'])]      # spacing within the tolerance
+                files.append(sp)
     imgs = [f['id'] for f in files]
     faults = []
+    kinds = ['incong', 'collide', 'collide', 'unreadable', 'spacing']
+    if noiop:
+        kinds += ['orient', 'orient']
+    if use_abs:
+        kinds += ['ordinate', 'ordinate']
     for _ in range(rng.choice([1, 1, 2, 3])):
-        k = rng.choice(['incong', 'collide', 'collide', 'unreadable'])
+        k = rng.choice(kinds)
         like = files[rng.choice(imgs)]
         if k == 'unreadable':
             sp = _fault_files(rng, len(files), 1, like)[0]
         else:
             sp = dict(like, id=len(files))
-            if k == 'incong':
-                sp['rows' if rng.random() < 0.5 else 'cols'] = 3
-                sp['ipp'] = [9 + len(files)] * 3      # its own position and time point: never collides
-                sp['acq'] = 9 + len(files)
-            else:
+            if k == 'collide':
                 sp['tr'] = 2500
                 sp['ped'] = 'COL' if like['ped'] == 'ROW' else 'ROW'
+            else:
+                sp['ipp'] = [9 + len(files)] * 3      # its own position and time point: never collides
+                if k != 'ordinate':
+                    sp['acq'] = like['acq'] if use_abs else 9 + len(files)
+                if k == 'incong':
+                    sp['rows' if rng.random() < 0.5 else 'cols'] = 3
+                elif k == 'spacing':
+                    sp['ps'] = rng.choice([['1.0', '1.2'], ['1.0001', '1.0'], ['0.5', '0.5']])
+                elif k == 'orient':
+                    other = [q for q in range(len(PLANES)) if PLANES[q] != PLANES[int(like['cluster'].split('/')[0])]]
+                    sp['iop'] = [str(x) for x in PLANES[rng.choice(other)]]
+                elif k == 'ordinate':
+                    sp['acq'] = 70 + len(files)       # not in abs_ordering: get_ordinate raises
         files.append(sp)
         faults.append(sp['id'])
+    if use_abs and rng.random() < 0.6:
+        # a series of its own in which EVERY file is refused (ordinates outside abs_ordering): the group must vanish
+        lone = dict(rng.choice(ser), uid='1.2.840.77.%d' % rng.randrange(1, 4))
+        for j in range(rng.choice([1, 1, 2])):
+            sp = {'id': len(files), 'kind': 'img', 'uid': lone['uid'], 'num': lone['num'], 'prot': lone['prot'],
+                  'iop': _iop(rng, PLANES[lone['plane']], '0', False), 'cluster': _cluster_id(lone), 'ipp': [0, 0, j],
+                  'acq': 50 + j, 'tr': 2000, 'ped': 'ROW'}
+            files.append(sp)
+            faults.append(sp['id'])
     args = {'time_order': 'AcquisitionNumber'} if timed else {}
+    if use_abs:
+        args['abs'] = [1, 2, 3]
     stacks, lists = [], []
     a = list(imgs)
     rng.shuffle(a)
@@ -833,22 +1079,31 @@ def _gen_stack(rng):
     o = list(a)
     o.insert(rng.randrange(1, len(o) + 1), rng.choice(faults))
     stacks.append({'order': o, 'warn': False, 'args': args})
+    stacks.append({'order': [rng.choice(faults)] + list(a), 'warn': False, 'args': args})      # strict mode, the fault comes first
     lists.append({'order': stacks[1]['order'], 'warn': True})
-    return {'kind': 'stack-timed' if timed else 'stack', 'files': files, 'lists': lists, 'stacks': stacks}
+    case = {'kind': 'stack' + ('-timed' if timed else '') + ('-abs' if use_abs else '') + ('-noiop' if noiop else ''),
+            'files': files, 'lists': lists, 'stacks': stacks}
+    if noiop:
+        case['group_by'] = list(NOIOP_GROUP)
+    if rng.random() < 0.15:
+        case['force'] = True
+    return case
 
 
 def gen_cases(rng, tier):
-    n = 320 if tier == 'quick' else 4000
+    n = 260 if tier == 'quick' else 4000
     out = []
     for i in range(n):
         r = rng.random()
-        if r < 0.38:
+        if r < 0.30:
             out.append(_gen_mix(rng))
-        elif r < 0.57:
+        elif r < 0.45:
             out.append(_gen_mix(rng, custom=True))
-        elif r < 0.65:
+        elif r < 0.57:
+            out.append(_gen_tol(rng))
+        elif r < 0.63:
             out.append(_gen_chain(rng))
-        elif r < 0.75:
+        elif r < 0.69:
             out.append(_gen_none(rng))
         else:
             out.append(_gen_stack(rng))
@@ -858,7 +1113,7 @@ def gen_cases(rng, tier):
 SHARD = 20
 IMPL_TIMEOUT = 60
 NAME = "grouping"
-CORR_REQUIRE = "From DV Require Import Generated.T_group Group.Model Group.Corr."
+CORR_REQUIRE = "From Coq Require Qcanon.\nFrom DV Require Import Generated.T_group Group.Model Group.Corr."
 CORR_CASE_TYPE = "Corr.case"
 CORR_CHECK = "Corr.check"
 CORR_SHOW = "Corr.show"
